@@ -81,7 +81,7 @@ def gen_cases(tier, seed):
     for style in ("cached", "uncached", "mixed", "item"):
         for n in ((5, 50, 1000) if style != "item" else (5, 50, 300)):
             yield {"id": "rec-%s-%d" % (style, n), "kind": "rec", "style": style, "n": n}
-    for place in ("top", "child", "item"):
+    for place in ("top", "child", "item", "itemchild"):
         yield {"id": "nonegrid-%s" % place, "kind": "nonegrid", "place": place}
     n = 420 if quick else 1800
     nl = 24 if quick else 300
@@ -357,7 +357,7 @@ def run_nonegrid(case):
     vals3 = [None, True, False]
     for an_cells in vals3:
         for an_space in vals3:
-            for an_parent in (vals3 if place == "child" else [None]):
+            for an_parent in (vals3 if place in ("child", "itemchild") else [None]):
                 for an_model in (False, True):
                     for via_caller in (False, True):
                         from ..mxutil import reset_session
@@ -375,6 +375,13 @@ def run_nonegrid(case):
                             host, call, sp = A.new_space("Ch"), "Ch.tgt(x)", F.SP_CH
                             if an_parent is not None:
                                 A.allow_none = an_parent
+                        elif place == "itemchild":
+                            # a child space with its own setting inside an instance of a parametrised space
+                            B = m.new_space("B", formula=F.SPACE_FORMULA)
+                            host, call, sp = B.new_space("Ch"), "B_[x].Ch.tgt(x)", F.sp_item(1) + ".Ch"
+                            A.absref(B_=B)
+                            if an_parent is not None:
+                                B.allow_none = an_parent
                         else:
                             host, call, sp = m.new_space("B", formula=F.SPACE_FORMULA), "B_[x].tgt(x)", F.sp_item(1)
                             A.absref(B_=host)
@@ -384,7 +391,7 @@ def run_nonegrid(case):
                         if an_cells is not None:
                             tgt.allow_none = an_cells
                         A.new_cells("top", formula=NG_SRC_TOP % call)
-                        chain = [an_cells, an_space] + ([an_parent] if place == "child" else [])
+                        chain = [an_cells, an_space] + ([an_parent] if place in ("child", "itemchild") else [])
                         allowed = next((bool(v) for v in chain if v is not None), bool(an_model))
                         level = next((lv for lv, v in zip(["cells", "space", "parent-space"], chain)
                                       if v is not None), "model")
@@ -394,6 +401,8 @@ def run_nonegrid(case):
                             r = F.attempt(A.top, 1)
                         elif place == "item":
                             r = F.attempt(lambda: host(1).tgt(1))
+                        elif place == "itemchild":
+                            r = F.attempt(lambda: B(1).Ch.tgt(1))
                         else:
                             r = F.attempt(host.tgt, 1)
                         a = probe.disarm()
@@ -453,6 +462,36 @@ def run_nonegrid(case):
                                 vio.append({"kind": "retry-value", "signature": "evaluation after a failure returns "
                                             "a value different from the no-failure value",
                                             "detail": dict(where, got=repr(r2)[:200])})
+                        if not vio and place in ("item", "itemchild"):
+                            # the setting of the space changes while the instance exists: another element of the
+                            # same instance follows the new setting
+                            host.allow_none = not allowed
+                            allowed2 = bool(an_cells) if an_cells is not None else (not allowed)
+                            el2 = (sp, "tgt", (2,))
+                            probe.arm("post", el2, "none")
+                            if place == "item":
+                                r = F.attempt(lambda: host(1).tgt(2))
+                            else:
+                                r = F.attempt(lambda: B(1).Ch.tgt(2))
+                            a = probe.disarm()
+                            if not a["fired"]:
+                                raise Inconclusive("None was not returned by the armed element (second phase)")
+                            count("none_grid_checks")
+                            key = "%s|space setting changed under a live instance|%s" % (
+                                place, "allowed" if allowed2 else "refused")
+                            matrix["none: placement x deciding level x outcome"][key] = \
+                                matrix["none: placement x deciding level x outcome"].get(key, 0) + 1
+                            if allowed2 and r != ("ok", None):
+                                vio.append({"kind": "none-allowed", "signature": "None returned where allow_none "
+                                            "resolves true is refused or not stored",
+                                            "detail": dict(where, phase="setting changed under a live instance",
+                                                           result=repr(r)[:200])})
+                            elif not allowed2 and not (r[0] == "exc" and isinstance(r[1], FormulaError)
+                                                       and isinstance(mx.get_error(), NoneReturnedError)):
+                                vio.append({"kind": "none-refused", "signature": "None returned where allow_none "
+                                            "resolves false does not raise FormulaError carrying NoneReturnedError",
+                                            "detail": dict(where, phase="setting changed under a live instance",
+                                                           result=repr(r)[:200])})
                         m.close()
                         if vio:
                             return {"violations": vio, "counters": cnt, "matrix": matrix, "shapes": shapes,
